@@ -683,8 +683,33 @@ def r4_depth(ctx, rep):
 
 
 # ------------------------------------------------------------------------------ R5
+def anchored_url_from_parent(ctx, rep):
+    """an entity documented on its owner's page gets '<owner page>#<anchor>': the owner is the entity's *current*
+    parent (inherited bindings are re-parented to the extending type during correlation), not something recorded at
+    construction time"""
+    py = ctx.py
+    guf = py.func("FortranBase.get_url")
+    ev = astq.trace(guf)
+    anch = [e for e in ev if e.kind == "return" and e.value is not None and "anchor" in " ".join(
+        ast.unparse(x) for x in astq.expand_locals(e.value, guf))]
+    if not anch:
+        raise AnalysisError("FortranBase.get_url: the '<page>#<anchor>' return was not found")
+    for e in anch:
+        src = " ".join(ast.unparse(x) for x in astq.expand_locals(e.value, guf, depth=5))
+        conds = " ".join(e.cond_texts())
+        from_parent = "self.parent.get_url()" in src or "self.parent.get_url()" in conds
+        stale = "hierarchy" in src or "hierarchy" in conds
+        ok = from_parent and not stale
+        rep.ob("get_url: the owner's page is the current parent's page", ok,
+               "built from self.parent.get_url()" if ok else
+               f"the page part of `{ast.unparse(e.value)[:60]}` comes from {'the constructor-time hierarchy' if stale else 'something other than self.parent'}: "
+               f"a generic binding inherited by an extending type links to the base type's page, where its anchor does not exist",
+               py.nloc(e.node))
+
+
 def r5_dirs(ctx, rep):
     py = ctx.py
+    anchored_url_from_parent(ctx, rep)
     # directories writeout creates
     fn = py.func("Documentation.writeout")
     created: Set[str] = set()
@@ -1011,6 +1036,13 @@ def r7_pageable_entities_get_pages(ctx, rep):
         rep.ob(f"top-level {lst} registered and paged", ok, "", "ford/fortran_project.py", nontrivial=False)
 
 
+
+def r9_canonical_paths(ctx, rep):
+    """relurl replaces the resolved absolute output path by a relative one; that only matches when project_url /
+    output_dir were canonical to begin with - shared with C19.R3"""
+    from . import c19
+    c19.r3_resolved_paths(ctx, rep)
+
 RULES = [
     RuleSpec("C09.R7", r7_pageable_entities_get_pages, "entities that have a page URL get a page", floor=12),
     RuleSpec("C09.R8", r8_anchor_targets_exist, "anchors of linkable members are emitted unconditionally", floor=16),
@@ -1020,4 +1052,5 @@ RULES = [
     RuleSpec("C09.R4", r4_depth, "literal ../ only on depth-1 pages", floor=2),
     RuleSpec("C09.R5", r5_dirs, "directories and page names agree", floor=15),
     RuleSpec("C09.R6", r6_graph_urls, "links only to visible entities", floor=1),
+    RuleSpec("C09.R9", r9_canonical_paths, "configured paths are canonical (shared with C19.R3)", floor=1),
 ]
